@@ -98,9 +98,10 @@ class World:
 
 
 def build(c, variant):
-    S = 2
+    labels = variant.get("labels")
+    S = len(labels) if labels else 2
     w = World()
-    m = dro.Model(S)
+    m = dro.Model(labels if labels else S)
     x = m.dvar(2)
     y = m.dvar()
     z = m.rvar(1 if variant.get("nz", 1) == 1 else 2)
@@ -113,7 +114,7 @@ def build(c, variant):
         if s == 1:
             c.assume(lo != 0)      # zero-ness of the bounds is explored on scenario 0 only (keeps the path count down)
             c.assume(hi != 0)
-        fs[s].suppset(z >= lo, z <= hi)
+        (fs.loc[labels[s]] if labels else fs[s]).suppset(z >= lo, z <= hi)
         w.support[s] = (lo, hi)
     w.events = []
     if variant.get("expt") == "all":
@@ -130,6 +131,14 @@ def build(c, variant):
             c.assume(eh != 0)
             fs[s].exptset(rsome.E(z) >= el, rsome.E(z) <= eh)
             w.events.append(([s], el, eh))
+    elif variant.get("expt") == "first-two-by-label":
+        # an event of two scenarios selected by their LABELS (integer labels that are not the positions)
+        el, eh = c.fresh_real("el"), c.fresh_real("eh")
+        c.assume(el < eh)
+        c.assume(el != 0)
+        c.assume(eh != 0)
+        fs.loc[labels[:2]].exptset(rsome.E(z) >= el, rsome.E(z) <= eh)
+        w.events.append(([0, 1], el, eh))
     elif variant.get("expt") in ("overlap", "overlap-reversed"):
         # scenario 1 belongs to two events: every event containing s contributes its beta to scenario s
         decl = [([0, 1], "A"), ([1], "B")]
@@ -167,6 +176,8 @@ def build(c, variant):
         gs.exptset(rsome.E(z) >= el, rsome.E(z) <= eh)
         w.own = {"support": gsup, "events": [([0, 1], el, eh)], "pub": None}
         w.gs = gs
+    if variant.get("adapt") == "event-by-label":
+        x.adapt(labels[1])
     if variant.get("adapt") in ("event", "both"):
         x.adapt(1)
     if variant.get("adapt") in ("affine", "both"):
@@ -235,11 +246,13 @@ VARIANTS = {
     "event,E-affine,econstr,expt-overlap": dict(obj="E-affine", expt="overlap", adapt="event", econstr=True),
     "static,E-affine,expt-all,econstr-with-its-own-set": dict(obj="E-affine", expt="all", econstr="own-set"),
     "static,R-objective,expt-per-scenario,econstr-with-its-own-set": dict(obj="R", expt="per-scenario", econstr="own-set"),
+    "static,E-affine,labels=(1,2,3),event-of-two-by-label": dict(obj="E-affine", expt="first-two-by-label", labels=[1, 2, 3]),
+    "event,E-affine,labels=(2,0,1),event-of-two-by-label": dict(obj="E-affine", expt="first-two-by-label", labels=[2, 0, 1], adapt="event-by-label"),
 }
 
 
 def run_variant(vname):
-    variant = VARIANTS[vname]
+    variant = VARIANTS.get(vname) or THOROUGH_VARIANTS[vname]
 
     def setup(c):
         w = build(c, variant)
@@ -368,7 +381,17 @@ def run_variant(vname):
     return obs
 
 
+THOROUGH_VARIANTS = {
+    "static,E-affine,expt-all,nz=2": dict(obj="E-affine", expt="all", nz=2),
+    "event,E-maxof,expt-per-scenario,nz=2": dict(obj="E-maxof", expt="per-scenario", adapt="event", nz=2),
+    "static,E-affine,expt-overlap,prob-ub,nz=2": dict(obj="E-affine", expt="overlap", prob="ub", nz=2),
+    "affine,E-affine,econstr,expt-all,nz=2": dict(obj="E-affine", expt="all", adapt="affine", econstr=True, nz=2),
+}
+
+
 def jobs(tier):
+    if tier != "quick":
+        VARIANTS.update(THOROUGH_VARIANTS)
     return [{"name": v, "kind": "variant", "variant": v} for v in VARIANTS]
 
 
